@@ -314,6 +314,7 @@ def run(ctx: Ctx):
     ffsp_tables_per_reset(ctx)
     alone_steppable(ctx)
     rewards_read_frozen_state(ctx)
+    episode_state_lives_in_the_tensordict(ctx)
     positive_control(ctx)
 
 
@@ -373,6 +374,55 @@ def guarded_callees(ctx: Ctx):
                construct="FJSPEnv._transit_to_next_time:candidate-leak:" + ",".join(leaks))
 
 
+ENV_OBJECT_STATE = {
+    ("FFSPEnv", "_step", "step_cnt"): "a diagnostic step counter; the index tables it feeds are rebuilt per reset (C04.d checks that they are per reset and per batch size)",
+    ("FFSPEnv", "_reset", "step_cnt"): "reset of the diagnostic counter",
+    ("FFSPEnv", "_reset", "tables"): "index tables rebuilt at every reset for the batch size of that reset (C04.d)",
+}
+
+
+def episode_state_lives_in_the_tensordict(ctx: Ctx):
+    """C04.h what `_reset / _step / get_action_mask / _get_reward / check_solution_validity` compute for an episode is kept in the
+    TensorDict, not on the environment object: one env object serves batches of different sizes and several episodes in flight
+    (training batch, validation batch, baseline rollouts).  A row-index vector cached on `self` at the first step has the length
+    of THAT batch; a threshold stored on `self` at reset belongs to the LAST reset.  No assignment to `self.<attr>` in those
+    methods of any env class (MRO inside the repo), except the listed, reasoned FFSP entries."""
+    import ast
+    METHS = ("_reset", "_step", "get_action_mask", "_get_reward", "check_solution_validity", "step", "reset", "get_reward", "_torchrl_step")
+    n, used = 0, set()
+    for cname, path in T.ALL_ENVS.items():
+        ci = ctx.repo.get_class(path, cname)
+        for c in [x for x in ctx.repo.mro(ci) if hasattr(x, "methods")]:
+            for mn in METHS:
+                fi = c.methods.get(mn)
+                if fi is None:
+                    continue
+                n += 1
+                bad = []
+                for st in ast.walk(fi.node):
+                    tg = st.targets if isinstance(st, ast.Assign) else ([st.target] if isinstance(st, (ast.AugAssign, ast.AnnAssign)) else [])
+                    for t in tg:
+                        for t_ in (t.elts if isinstance(t, (ast.Tuple, ast.List)) else [t]):
+                            base = t_
+                            while isinstance(base, ast.Subscript):
+                                base = base.value
+                            if isinstance(base, ast.Attribute) and isinstance(base.value, ast.Name) and base.value.id == "self":
+                                key = (c.name, mn, base.attr)
+                                if key in ENV_OBJECT_STATE:
+                                    used.add(key)
+                                else:
+                                    bad.append(base.attr)
+                if bad and cname == c.name or (bad and c.name not in T.ALL_ENVS):
+                    ctx.ob("C04.h", f"{c.name}.{mn}:episode-state-on-the-env-object", False, fi.loc,
+                           f"`self.{bad[0]}` is assigned in {c.name}.{mn}: the value outlives the episode and the batch it was computed for (another batch size, a second episode in flight "
+                           "on the same env object read it)", construct=f"{c.name}.{mn}:writes-self:{bad[0]}")
+                elif cname == c.name:
+                    ctx.ob("C04.h", f"{c.name}.{mn}:episode-state-in-the-tensordict", True, fi.loc, "no attribute of the env object is assigned")
+    ctx.extra["env_object_state_exceptions_used"] = sorted(map(list, used))
+    if n < 60:
+        raise AnalysisError(f"env methods lost: {n} < 60")
+
+
 def rewards_read_frozen_state(ctx: Ctx):
     """C04.f / C04.g an instance that finished early keeps being stepped with feasible padding actions; its reward must be read
     from state those steps leave untouched.
@@ -393,6 +443,23 @@ def rewards_read_frozen_state(ctx: Ctx):
                "the reward is a function of the state only" if not uses else
                "the reward is rebuilt from the `actions` argument: the feasible padding actions of an instance that finished before its batch-mates are counted as selected items",
                construct=f"{sl.fi.qualname}:reward-from-actions")
+    # f, second clause: every cell the reward reads is either an instance constant (never rewritten by `_step`) or the frozen
+    # selection itself -- `weights` / `distances` keep being rewritten by padding steps (the padded set's members are covered,
+    # the padded facility's row enters the minimum) even though the selection is frozen
+    for cname in ("FLPEnv", "MCPEnv"):
+        env = EnvA(ctx.repo, T.ALL_ENVS[cname], cname)
+        sl = env.slot("_get_reward")
+        st_ = env.slot("_step")
+        rewritten = {k for k, v in st_.td.cells.items() if not (v.op == "cell0" and v.args[1] == k)} - {"chosen"}
+        live = sorted(vg.cells_of(sl.fr.ret) & rewritten)
+        ctx.ob("C04.f", f"{cname}._get_reward:reads-frozen-cells", not live, sl.where,
+               f"cells read: {sorted(vg.cells_of(sl.fr.ret))}; rewritten by every step (padding steps included): {live or 'none of them'}",
+               construct=f"{sl.fi.qualname}:reward-from-live-bookkeeping:{','.join(live)}")
+    # i: the covered-item indicator of the MCP reward (one entry per instance and item, from that instance's own chosen sets) -- C03.f
+    n0 = len(ctx.obligations)
+    C03.mcp_covered_indicator(ctx)
+    for o in ctx.obligations[n0:]:
+        o.rule = "C04.i"
     n0 = len(ctx.obligations)
     C03.incremental(ctx)
     keep = [o for o in ctx.obligations[n0:] if o.instance.startswith("FFSPEnv")]
